@@ -221,13 +221,38 @@ def skel_other(b):
     return any(skel_other(x) for x in b.get("s", b.get("c", [])))
 
 
+def skel_refs(b):
+    """rules (indices into the skeleton) referenced in a skeleton body"""
+    if isinstance(b, str):
+        return []
+    if "r" in b:
+        return [b["r"]]
+    if "o" in b:
+        return [r for x in b["o"] for r in skel_refs(x)] if isinstance(b["o"], list) else skel_refs(b["o"])
+    return [r for x in b.get("s", b.get("c", [])) for r in skel_refs(x)]
+
+
+def strictly_documented(i, obs, seen=None):
+    """the rule's body is in the documented fragment and so are, transitively, the bodies of the rules it references: such a
+    rule cannot match the empty string, so each of its references leaves a child in the tree (a referenced rule that may match
+    nothing -- `R3: R4* | R4?;` -- leaves none, and `Derives` says nothing about it)"""
+    seen = set() if seen is None else seen
+    if i in seen or not isinstance(i, int) or not (0 <= i < len(obs["skeleton"])):
+        return True
+    seen.add(i)
+    body = obs["skeleton"][i]["body"]
+    if skel_other(body):
+        return False
+    return all(strictly_documented(r, obs, seen) for r in skel_refs(body))
+
+
 def abstract_nodes_documented(t, obs):
-    """every abstract rule's node of the parse tree belongs to a rule whose resolved body is documented"""
+    """every abstract rule's node of the parse tree belongs to a rule whose resolved body is documented, transitively through
+    the rules it references"""
     if "t" in t:
         return True
     if "n" in t and obs["kinds"].get(t["n"]) == "abstract":
-        i = obs["names"].index(t["n"])
-        if skel_other(obs["skeleton"][i]["body"]):
+        if not strictly_documented(obs["names"].index(t["n"]), obs):
             return False
     return all(abstract_nodes_documented(c, obs) for c in t["k"])
 
